@@ -46,7 +46,7 @@ QUERIES = ("integrate", "log_integral", "log_integral_light", "evaluate", "get_d
 
 
 def cells(tier, seed):
-    n = 96 if tier == "quick" else 640
+    n = 96 if tier == "quick" else 1600
     maxlen = 5 if tier == "quick" else 8
     out = []
     for i in range(n):
